@@ -102,9 +102,11 @@ class Builder:
         for p in params:
             self.by_kind.setdefault(p["kind"], []).append(p)
 
-    def add(self, cls, file=None, env=None, enc=None, pred="none", core=None):
+    def add(self, cls, file=None, env=None, enc=None, pred="none", core=None, base_env=None):
         c = {"id": len(self.cases), "cls": cls, "file": file or {"kind": "none"}, "env": env or {}, "enc": enc or [],
              "pred": pred}
+        if base_env is not None:
+            c["baseEnv"] = base_env
         if core:
             c["core"] = core
         self.cases.append(c)
@@ -206,6 +208,37 @@ class Builder:
             cls = dict(s, param=".".join(p["addr"]), ptr=p["ptr"])
             self.add(cls, env={env_key(p["addr"]): ENVVALUES[s["val"]]})
 
+    def valid_env(self, p):
+        v = VALID_ENV_TYPE.get(p["type"], VALID_ENV.get(p["kind"]))
+        if v is None:
+            raise vf.Infra("no valid environment text for parameter type %s" % p["type"])
+        fixed = {"url": "stun:stun.example.org:3478", "dest": "rtsp://dest.example.org:8554/x", "source": "publisher",
+                 "recordPath": "/r/%path/%Y-%m-%d_%H-%M-%S-%f"}
+        return fixed.get(p["addr"][-1], v)
+
+    def shape_envSuffix(self, s):
+        """every parameter of the kind: a variable whose name continues after the complete parameter name."""
+        if not self.ctx.thorough and s["withExact"] and s["suffix"] != "_X":
+            return
+        for p in self.by_kind.get(s["kind"], []):
+            key = env_key(p["addr"])
+            exact = self.valid_env(p)
+            base = {key: exact} if s["withExact"] else {}
+            if "*" in p["addr"] or "#" in p["addr"]:
+                # any variable below a map entry / list item creates it: a sibling parameter is set in both
+                # environments, so that the comparison shows the effect of the suffixed variable alone
+                sib = [q for q in self.params if q["addr"][:-1] == p["addr"][:-1] and q["addr"] != p["addr"]
+                       and q["kind"] not in CONTAINERS and q["kind"] not in LISTKINDS and q["kind"] != "ulist"]
+                pref = [q for q in sib if q["addr"][-1] in ("runOnUnread", "path", "user", "url", "dest", "codec")]
+                if pref or sib:
+                    q = (pref or sib)[0]
+                    base[env_key(q["addr"])] = self.valid_env(q)
+            env = dict(base)
+            env[key + s["suffix"]] = "1"
+            cls = dict(s, param=".".join(p["addr"]), var=key + s["suffix"], ptr=p["ptr"], unmarshaler=p["kind"] in UNMARSHALERS,
+                       scope="paths" if p["addr"][0] == "paths" else "pathDefaults" if p["addr"][0] == "pathDefaults" else "global")
+            self.add(cls, env=env, base_env=base)
+
     def shape_envEmptyList(self, s):
         for p in self.params:
             if p["elem"] == s["elem"] and p["ptr"] == s["ptr"]:
@@ -285,6 +318,16 @@ class Bg(threading.Thread):
 
 
 LISTKINDS = ("strlist", "uintlist", "floatlist", "structlist")
+CONTAINERS = ("struct", "map", "optpath", "structlist")
+UNMARSHALERS = ("duration", "stringsize", "credential", "enum", "ulist", "optpath")
+# a valid environment text per parameter kind / Go type (the exact key next to a suffixed one)
+VALID_ENV = {"string": "abc", "int": "5", "uint": "7", "float": "1.5", "bool": "yes", "duration": "5s", "stringsize": "1M",
+             "credential": "user1", "strlist": "a,b", "uintlist": "1,2", "floatlist": "1,2", "structlist": "", "struct": "",
+             "map": "", "optpath": ""}
+VALID_ENV_TYPE = {"conf.LogLevel": "debug", "conf.AuthMethod": "internal", "conf.Encryption": "no", "conf.RTSPTransport": "tcp",
+                  "conf.RTSPRangeType": "clock", "conf.HLSVariant": "fmp4", "conf.RecordFormat": "fmp4", "conf.MoQTransport": "quic",
+                  "conf.AuthAction": "read", "conf.AlwaysAvailableTrackCodec": "G711", "conf.LogDestinations": "stdout",
+                  "conf.IPNetworks": "10.0.0.1", "conf.RTSPTransports": "tcp", "conf.RTSPAuthMethods": "basic"}
 
 
 def lap(ctx, label):
@@ -360,7 +403,7 @@ def run(ctx):
         core_in.append(k)
 
     # ---- REPLAY in child processes (and the concrete bytes of the hot-reload files)
-    cf = vf.write_ndjson(ctx.path("cases.ndjson"), [{k: c[k] for k in ("id", "file", "enc", "env")} for c in cases])
+    cf = vf.write_ndjson(ctx.path("cases.ndjson"), [{k: c[k] for k in ("id", "file", "enc", "env", "baseEnv") if k in c} for c in cases])
     of = ctx.path("obs.ndjson")
     fin = vf.write_ndjson(ctx.path("corefiles_in.ndjson"), core_in)
     fout = ctx.path("corefiles_out.ndjson")
@@ -376,13 +419,16 @@ def run(ctx):
         o = dict(obs[c["id"]])
         o["pred"] = c["pred"]
         o["via"] = "load"
-        for k in ("crash", "panic", "ok", "err"):
+        for k in ("crash", "panic", "ok", "err", "compared", "same"):
             o.setdefault(k, False)
+        o["sfxLeaf"] = c["cls"]["class"] == "envSuffix" and c["cls"]["kind"] not in CONTAINERS
         recs.append(o)
 
     # ---- TV: the statement evaluated by TLC on every outcome (the load records while the Core cases run)
-    drift = {"layer1": 0, "otherTimeout": 0}
+    drift = {"layer1": 0, "otherTimeout": 0, "suffixChangedConf": 0}
     groups = {}
+    suffix_changed = {}
+    suffix_example = {}
 
     def validate(tag, part):
         vf.write_ndjson(d + "/C10_trace_%s.ndjson" % tag, part)
@@ -411,6 +457,10 @@ def run(ctx):
             groups[g] = groups.get(g, 0) + 1
         for dr in tv.tagged("DRIFT"):
             drift[dr["what"]] = drift.get(dr["what"], 0) + 1
+            if dr["what"] == "suffixChangedConf":
+                cl = bycase[part[dr["l"] - 1]["id"]]["cls"]
+                suffix_changed.setdefault("%s%s" % (cl["kind"], " (pointer)" if cl["ptr"] else ""), set()).add(cl["param"])
+                suffix_example.setdefault("k", cl["var"])
             if drift[dr["what"]] <= 3:
                 rec = part[dr["l"] - 1]
                 c = bycase[rec["id"]]
@@ -447,6 +497,12 @@ def run(ctx):
     ctx.set("drift_events", drift)
     if groups:
         ctx.set("violations_by_class_monitor_route", groups)
+    if suffix_changed:
+        ctx.set("parameters_silently_reset_by_a_variable_that_extends_their_name",
+                {k: sorted(v)[:40] for k, v in sorted(suffix_changed.items())})
+        ctx.note("a variable that merely extends the name of a parameter with its own environment decoder (e.g. %s=1) is "
+                 "accepted and resets the parameter to the decoder's value for the empty text: %d parameters (drift, see evidence)"
+                 % (suffix_example.get("k"), sum(len(v) for v in suffix_changed.values())))
     mutated = [x["id"] for x in recs if x.get("defaultsMutated")]
     if mutated:
         ctx.set("loads_that_changed_builtin_users", len(mutated))
@@ -474,7 +530,8 @@ def run_core(ctx, files):
             raise vf.Infra("hot reload harness: case %s: %s" % (o["id"], o["infra"]))
         o["pred"] = "none"
         o["via"] = "core"
-        for k in ("crash", "panic", "ok", "err"):
+        o["sfxLeaf"] = False
+        for k in ("crash", "panic", "ok", "err", "compared", "same"):
             o.setdefault(k, False)
         out.append(o)
     if len(out) != len(files):
